@@ -100,6 +100,9 @@ func tiOf(t atree.TypeInfo) (TI, bool) {
 var decodeStorable atree.StorableDecoder = tu.DecodeStorable
 
 func newStorage(l *Ledger) *atree.PersistentSlabStorage {
+	if l.viaAPI {
+		return atree.NewPersistentSlabStorage(atree.NewLedgerBaseStorage(&ledgerAPI{l}), cborEncMode, cborDecMode, decodeStorable, decodeTypeInfo)
+	}
 	return atree.NewPersistentSlabStorage(l, cborEncMode, cborDecMode, decodeStorable, decodeTypeInfo)
 }
 
